@@ -1,37 +1,71 @@
 PROP = dict(
     drivers=['ColorOpt'],
-        gens=['comp', 'fonts'],
-        lake=['IcyVerif.Props.C12'],
+        gens=['comp', 'fonts', 'coloropt', 'unsafe_sites', 'crc', 'xb', 'binfmt'],
+        lake=['IcyVerif.Props.C12', 'IcyVerif.Props.C12Fonts', 'IcyVerif.Props.C12Sixel', 'IcyVerif.Props.C12Src', 'IcyVerif.Props.C12Writers'],
         ns='IcyVerif.C12',
         theorems=['blank_fg_irrelevant', 'solid_bg_irrelevant', 'blank_char_irrelevant', 'block_shape_is_full',
                   'optimize_cell_preserves_render', 'optimize_preserves_row', 'optimize_preserves_rows',
-                  'optimize_preserves_size', 'flat_clone_same_cells', 'flat_view_id',
-                  'optimize_preserves_picture_partial', 'invisible_composite_is_invisible_cell',
-                  'invisible_cell_renders_as_default', 'optimize_preserves_picture_partial_fonts',
+                  'optimize_preserves_size', 'flat_clone_same_cells', 'flat_store_id',
+                  'invisible_composite_is_invisible_cell', 'flat_store_renders_same', 'flat_clone_preserves_picture',
+                  'optimize_preserves_document', 'optimize_preserves_document_builtin', 'optimize_defined_iff',
                   'same_blocks_same_bytes', 'builtin_fonts_ok', 'builtin_font_ok',
-                  'transparent_unresolved_changes_picture', 'invisible_font_page_changes_picture',
-                  'space_not_blank_changes_picture', 'stray_bits_changes_picture'],
+                  'space_not_blank_changes_picture', 'stray_bits_changes_picture',
+                  # Props/C12Fonts.lean: fonts of any width, fonts out of the loaders, exactness
+                  'wide_font_never_block', 'wide_font_ok', 'eight_wide_font_ok', 'narrow_font_ok',
+                  'loaded_font_rows_len', 'loaded_font_ok', 'loaded_psf1_raw_font_ok_iff', 'embedded_font_ok_iff',
+                  'space_not_blank_changes_cell', 'eight_wide_font_exact',
+                  # Props/C12Sixel.lean: the second loop of render_to_rgba
+                  'render_full_without_sixels', 'optimised_full_render_is_text_picture', 'optimize_preserves_full_render',
+                  'full_render_preserved_iff', 'offscreen_sixel_invisible', 'sixel_changes_picture',
+                  # Props/C12Src.lean
+                  'source_skeleton_unchanged',
+                  # Props/C12Writers.lean: the optimiser inside the format writers
+                  'default_save_is_lossless_save_of_optimised', 'default_save_preserves_picture', 'optPic_renders_same',
+                  'binary_default_save', 'xb_default_save', 'bin_adf_idf_tnd_default_save',
+                  'representable_optPic', 'binary_default_save_of_representable'],
         harness='c12',
         design='DESIGN.md §4 C12',
         technique='Lean 4 proof (induction over the row / the rows with the carried attribute generalised; blank glyphs render '
-                  'without their foreground, full glyphs without their background; Buffer::get_char of the flat clone '
-                  'characterised through the C13 compositing model) over models of ColorOptimizer::optimize, get_shape, '
-                  'flat_clone(false) and render_to_rgba; the font condition FontOk is discharged for every built-in font by '
-                  'decide +kernel on per-glyph summaries regenerated from data/fonts; differential correspondence of the '
-                  'optimised cells and of both rendered images (FNV of the RGBA bytes) against the model; the property itself '
-                  '(byte-equal images, same size, both normalize_whitespaces settings) evaluated on real Buffers',
+                  'without their foreground, full glyphs without their background; Buffer::get_char of the flat clone — an ALPHA '
+                  'layer after the two C12 repairs of flat_clone — characterised through the C13 compositing model: '
+                  'optimize_preserves_document is the FULL whole-document statement, optimize_defined_iff says exactly when the '
+                  'optimiser returns) over models of ColorOptimizer::optimize, get_shape, flat_clone(false) and both loops of '
+                  'render_to_rgba; the font condition FontOk is discharged for every built-in font by decide +kernel on per-glyph '
+                  'summaries regenerated from data/fonts, and characterised for fonts of any width and for fonts out of the '
+                  'loaders (C17 model of src/fonts.rs): eight_wide_font_exact is an iff; the optimiser inside the writers as a '
+                  'composition theorem instantiated with the C05 round-trip theorems; source fingerprints of every modelled '
+                  'body; differential correspondence of the optimised cells and of all rendered images (FNV of the RGBA '
+                  'bytes) against the model; the property itself (byte-equal images, same size / layer count / ice mode, both '
+                  'normalize_whitespaces settings) evaluated on real Buffers, and through every format writer',
         rule='cases: font summaries of all 60 built-in fonts vs the compiled crate; seeded documents per the quantifier (1..=4 '
              'layers, alpha/offset/hidden/modes, buffer 1..=6 x 1..=3, 1..=3 font slots filled with random built-in fonts, '
              'cells over 0..=255 with extra weight on 0/32/255/219, palette / bright / out-of-range / RGB colours, bold, '
-             'custom palette entries, both is_terminal_buffer), each with both normalize_whitespaces settings; a second '
-             'family with TRANSPARENT_COLOR cells and non-zero default font pages (where the two recorded findings live); '
-             'a sweep of the full glyph range of every built-in font (oracle; some also tied); documents naming a '
-             'missing font page / glyph (correspondence only); distinct_nontrivial = distinct documents',
+             'custom palette entries, both is_terminal_buffer, all three ice modes), each with both normalize_whitespaces '
+             'settings; a second family with TRANSPARENT_COLOR cells and non-zero default font pages (the two repaired sites '
+             'of flat_clone; their witnesses are replayed first on every run); a sweep of the full glyph range of every '
+             'built-in font; documents with 1..=3 sixels (inside / partly outside / empty / short data: second loop of '
+             'render_to_rgba, `coloropt sdoc`); fonts built as PSF2 FILES of width 4/6/8/9/12 and loaded with '
+             'BitFont::from_bytes (clean = property claimed by loaded_font_ok, stray padding bits / non-blank space = converse '
+             'witnesses, correspondence only); documents naming a missing font page / glyph (correspondence only); the '
+             'writer family (c12w.rs): all 14 writers of the FORMATS table x {lossless save of the flat clone, default save '
+             'with both normalize settings}, reload, render on the original rectangle — judged when the lossless file '
+             'reproduces the original picture — plus byte identity of to_bytes(default) and '
+             'optimize(buf).to_bytes(lossless); distinct_nontrivial = distinct documents',
         modelled='ColorOptimizer::optimize (both unwrap()s explicit), get_shape, generate_shape_map (as font lookup), '
-                 'Buffer::flat_clone(false) via the C13 model of Buffer::get_char, Buffer::render_to_rgba for the buffer '
-                 'rectangle (bold fold, 128 >> cx bit test incl. its shift-overflow and index panics, min of font sizes, '
-                 'unwritten pixels, byte layout), Palette::get_rgb as a parameter',
-        not_modelled='sixels (render_to_rgba second loop; flat_clone drops them - outside the quantifier), overlay layer, '
-                     'fonts wider than 8 pixels beyond the explicit panic',
+                 'Buffer::flat_clone(false) AFTER the two C12 repairs (alpha flat layer; invisible composited cell stored as a '
+                 'default blank on its font page) via the C13 model of Buffer::get_char, Buffer::render_to_rgba: first loop for '
+                 'the buffer rectangle (bold fold, 128 >> cx bit test incl. its shift-overflow and index panics, min of font '
+                 'sizes, unwritten pixels, byte layout) and second loop (sixels of every layer incl. hidden ones, no '
+                 'horizontal clipping, skipped rows above the picture do not advance the source line, usize overflow panic on '
+                 'a negative pixel column, short picture_data panic, i32 overflow guards), Palette::get_rgb as a parameter, '
+                 'fonts of any width (FontOk: wide fonts never Block, 8-pixel fonts exact, narrow fonts need clear padding '
+                 'bits), fonts out of BitFont::from_bytes / from_basic (C17 model), the optimiser call site in '
+                 'Buffer::to_bytes (toBytes; exactly one call site, pinned), source text of every modelled body pinned',
+        not_modelled='the overlay layer (outside the quantifier); sixels with negative width/height; the text formats\' '
+                     'writers and loaders (ANSI, PCBoard, Avatar, ASCII, Ctrl-A, Renegade, ATASCII) and IcyDraw inside C12 — '
+                     'for them the composition "default file reloads to the original picture whenever the lossless file '
+                     'does" is an oracle on the real crate, not a theorem; the Seq (PETSCII) writer is unimplemented in the '
+                     'crate; custom fonts with a non-blank space or stray padding bits are outside the property\'s quantifier '
+                     '(built-in fonts) and are characterised, not claimed',
         thorough_exhaustive=False,
     )
